@@ -346,7 +346,13 @@ func checkC07(rc *restCase) *CheckResult {
 		}
 		want := normRule(rule, rule.Body, []proto.Message{br.Msg})[0]
 		got := normRule(rule, rule.Body, view.Msgs)[0]
-		if canon(want) != canon(got) {
+		if canon(want) != canon(got) && canon(dequoteWrapperStrings(want)) == canon(got) {
+			// A StringValue parameter whose text is itself a JSON string literal ("...") is read by
+			// vanguard as that literal; the repository's own TestSetParameter documents this
+			// leniency. For a client-supplied parameter either reading is a faithful one
+			// (three-valued: unspecified); the consequence for the round trip is a known finding.
+			res.class("quoted_wrapper_string_read_as_json")
+		} else if canon(want) != canon(got) {
 			res.violate("binding", "c07:binding", "request %s %s (body %q) under rule %v: backend decoded %s, reference binder gives %s", out.Sent.Method, out.Sent.Target, trunc(out.Sent.Payloads0()), rule, msgJSON(got), msgJSON(want))
 		}
 		// response: JSON of the response_body field
@@ -576,6 +582,8 @@ func checkC07Chain(rc *restCase, res *CheckResult) *CheckResult {
 			sig := "c07:chain_roundtrip"
 			if !expressible {
 				sig = "c07:chain_roundtrip:inexpressible"
+			} else if canon(dequoteWrapperStrings(want)) == canon(got) {
+				sig = "c07:chain_roundtrip:quoted_stringvalue"
 			}
 			res.violate("roundtrip", sig, "RPC->REST->RPC changed the request: sent %s, final backend saw %s (rule %v)", msgJSON(want), msgJSON(got), rule)
 		}
@@ -661,4 +669,44 @@ func refRoundTrips(rule RuleSpec, m proto.Message) bool {
 	a := normRule(rule, rule.Body, []proto.Message{m})[0]
 	b := normRule(rule, rule.Body, []proto.Message{br.Msg})[0]
 	return canon(a) == canon(b)
+}
+
+
+// dequoteWrapperStrings returns a copy of m in which every google.protobuf.StringValue whose value
+// is a JSON string literal (starts and ends with a double quote and parses) holds the parsed string.
+func dequoteWrapperStrings(m proto.Message) proto.Message {
+	out := proto.Clone(m)
+	var walk func(pm protoreflect.Message)
+	walk = func(pm protoreflect.Message) {
+		if pm.Descriptor().FullName() == "google.protobuf.StringValue" {
+			fd := pm.Descriptor().Fields().ByName("value")
+			v := pm.Get(fd).String()
+			if len(v) >= 2 && v[0] == '"' && v[len(v)-1] == '"' {
+				var s string
+				if json.Unmarshal([]byte(v), &s) == nil {
+					pm.Set(fd, protoreflect.ValueOfString(s))
+				}
+			}
+			return
+		}
+		pm.Range(func(fd protoreflect.FieldDescriptor, v protoreflect.Value) bool {
+			switch {
+			case fd.IsMap():
+				if fd.MapValue().Message() != nil {
+					v.Map().Range(func(_ protoreflect.MapKey, mv protoreflect.Value) bool { walk(mv.Message()); return true })
+				}
+			case fd.IsList():
+				if fd.Message() != nil {
+					for i := 0; i < v.List().Len(); i++ {
+						walk(v.List().Get(i).Message())
+					}
+				}
+			case fd.Message() != nil:
+				walk(v.Message())
+			}
+			return true
+		})
+	}
+	walk(out.ProtoReflect())
+	return out
 }
